@@ -50,6 +50,70 @@ def _unsigned(n):
     return 'unsigned' in t or 'size_t' in t or 'size_type' in t
 
 
+_TYPE_BITS = {'long': (64, True), 'long long': (64, True), 'int64_t': (64, True), 'unsigned long': (64, False),
+              'unsigned long long': (64, False), 'uint64_t': (64, False), 'size_t': (64, False),
+              'int': (32, True), 'int32_t': (32, True), 'unsigned int': (32, False), 'uint32_t': (32, False),
+              'short': (16, True), 'int16_t': (16, True), 'unsigned short': (16, False), 'uint16_t': (16, False),
+              'signed char': (8, True), 'int8_t': (8, True), 'unsigned char': (8, False), 'uint8_t': (8, False),
+              'char': (8, True)}
+
+
+def _tb(t):
+    t = (t or '').replace('const ', '').replace('std::', '').strip()
+    return _TYPE_BITS.get(t)
+
+
+def float_cast_in_range(n, facts):
+    """n: a FloatingToIntegral cast node -> (proved?, text)."""
+    tgt = n.get('dtype') or n.get('type') or ''
+    tb = _tb(tgt)
+    src = strip(children(n)[0], explicit=True)
+    # ceil / floor / round / trunc of x stay inside any integer range that bounds x
+    while src.get('kind') == 'CallExpr' and len(children(src)) == 2 and \
+            (strip(children(src)[0]).get('referencedDecl') or {}).get('name') in ('ceil', 'floor', 'round', 'trunc'):
+        src = strip(children(src)[1], explicit=True)
+    lit = literal_value(src)
+    p = guards.canon(src)
+    what = '(%s)%s' % (tgt, (p or src.get('kind') or '?').split(':')[-1])
+    if tb is None:
+        return False, what + ' - target type outside the modelled integer types'
+    bits, signed = tb
+    lo_v = -(2 ** (bits - 1)) if signed else 0
+    hi_v = 2 ** (bits - 1) - 1 if signed else 2 ** bits - 1
+    if isinstance(lit, (int, float)) and not isinstance(lit, bool):
+        return (lo_v <= lit <= hi_v), what + ' - literal operand'
+    if p is None:
+        return False, what + ' - operand is not a variable with a dominating range test'
+    B = [f for f in facts if isinstance(f, tuple) and f[0] == 'B' and f[1] == p]
+
+    def limit(b, which):
+        m = re.match(r'^limit\.(min|max)<(.*)>$', b)
+        if not m or m.group(1) != which:
+            return None
+        return _tb(m.group(2))
+    lower = upper = False
+    for (_, a, op, b) in B:
+        if op in ('>', '>='):
+            l = limit(b, 'min')
+            if l and l[0] <= bits and (l[1] == signed or not l[1]):
+                lower = True
+            elif re.match(r'^-?\d+$', b) and int(b) >= lo_v - (1 if op == '>' else 0):
+                lower = True
+        if op in ('<', '<='):
+            l = limit(b, 'max')
+            # the limit of a 64-bit type is not a double: 2^63 (2^64) is the nearest, so only '<' is safe there
+            if l and (l[0] < bits or (l[0] == bits and l[1] == signed)) and (op == '<' or l[0] <= 32):
+                upper = True
+            elif re.match(r'^-?\d+$', b) and int(b) <= hi_v and abs(int(b)) < 2 ** 53:
+                upper = True
+    nan_free = ('ORD:' + p) in facts
+    if lower and upper and nan_free:
+        return True, what + ' - both limits tested'
+    missing = [w for w, ok in (('lower limit', lower), ('upper limit', upper), ('a comparison that excludes NaN', nan_free))
+               if not ok]
+    return False, what + ' - no dominating test of ' + ', '.join(missing)
+
+
 def index_in_bounds(idx, cont, facts, prog, func):
     """-> (proved?, reason).  idx / cont are expression nodes."""
     cp = guards.canon(cont)
@@ -402,11 +466,16 @@ def run(tier='quick'):
     U10 = chk.rule('U10', 'no null pointer reaches memcpy / memmove: a pointer taken from data() of a vector or string '
                           'is passed only where the container is known to be non-empty (a null pointer is undefined '
                           'behaviour there even for length 0)', floor=2)
+    U11 = chk.rule('U11', 'every conversion of a floating value to an integer type has its operand proved inside the '
+                          'range of the target type: dominating comparisons against both limits, at least one of which '
+                          'held as written (so the operand is not a NaN) - a conversion whose truncated value does not '
+                          'fit is undefined behaviour; callers use the saturating helper, whose body is the one '
+                          'conversion site', floor=2)
     U9 = chk.rule('U9', 'every recursive function of the library descends along children() of the crate forest, '
                         'which rules T1 / T2 of C07 keep acyclic', floor=1)
     chk.assume('asserts are compiled out (the shipped build defines NDEBUG); allocation failure surfaces as an '
                'exception; SQLite and zlib honour their contracts')
-    chk.note('UB classes not decided: out-of-range floating to integer conversions, signed overflow outside the '
+    chk.note('UB classes not decided: signed overflow outside the '
              'decoders (C05 covers those), data races (the library is documented single-threaded), lifetime of '
              'references held by callers')
 
@@ -447,6 +516,18 @@ def run(tier='quick'):
                                       '%s with no dominating test that the container is non-empty: data() of an empty '
                                       'vector may be a null pointer, and passing a null pointer to %s is undefined '
                                       'behaviour even when the length is 0' % (inst, nm))
+        if n.get('castKind') == 'FloatingToIntegral':
+            if key not in seen:
+                seen.add(key)
+                ok, why = float_cast_in_range(n, facts)
+                inst = '%s: %s' % (_short(func.qualname), why)
+                if ok:
+                    chk.ok(U11, inst, locstr(n))
+                else:
+                    chk.violation(U11, '%s|%s' % (_short(func.qualname), why.split(' - ')[0]), locstr(n),
+                                  '%s at %s: a value outside the range of the target type (or a NaN) makes the '
+                                  'conversion undefined behaviour; public setters and snapshots pass arbitrary doubles '
+                                  'here' % (inst, locstr(n)))
         if k == 'CXXOperatorCallExpr':
             c = children(n)
             op = (strip(c[0]).get('referencedDecl') or {}).get('name')
